@@ -91,6 +91,36 @@ fn mat_inputs(o: &Opts, rng: &mut Rng) -> Vec<(M3, M3, [f64; 3], [f64; 3], f64)>
     v.push([[0.25, 0.5, 0.25], [-0.25, 0.5, -0.25], [0.5, 0.0, -0.5]]); // YCgCo (det < 0)
     v.push([[0.8951, 0.2664, -0.1614], [-0.7502, 1.7135, 0.0367], [0.0389, -0.0685, 1.0296]]); // Bradford
     v.push([[0.30, 0.622, 0.078], [0.23, 0.692, 0.078], [0.243_422_689_245_478_19, 0.204_767_444_244_968_21, 0.551_809_866_509_553_6]]);
+    // exact TIES between magnitudes (pivot choices, argmax over a column, sign decisions): the sum/difference matrix, 45
+    // degree rotations about each axis, Hadamard-like sign matrices, a tie above a tiny third entry, and matrices whose
+    // entries all come from the grid {-2, -1, -0.5, 0, 0.5, 1, 2} (any two entries tie in magnitude with probability 1/4)
+    v.push([[1.0, 1.0, 0.0], [1.0, -1.0, 0.0], [0.0, 0.0, 1.0]]);
+    let c45 = std::f64::consts::FRAC_1_SQRT_2;
+    v.push([[c45, -c45, 0.0], [c45, c45, 0.0], [0.0, 0.0, 1.0]]);
+    v.push([[1.0, 0.0, 0.0], [0.0, c45, -c45], [0.0, c45, c45]]);
+    v.push([[c45, 0.0, c45], [0.0, 1.0, 0.0], [-c45, 0.0, c45]]);
+    v.push([[1.0, 1.0, 1.0], [1.0, -1.0, 1.0], [1.0, 1.0, -1.0]]);
+    v.push([[0.5, 1.0, 0.25], [-0.5, 1.0, 0.0], [1.0e-7, 0.0, 1.0]]);
+    v.push([[0.0, 1.0, 1.0], [1.0, 0.0, 1.0], [1.0, 1.0, 0.0]]);
+    v.push([[2.0, -2.0, 1.0], [-2.0, -2.0, 0.5], [0.0, 1.0, 2.0]]);
+    {
+        const GRID: [f64; 7] = [-2.0, -1.0, -0.5, 0.0, 0.5, 1.0, 2.0];
+        let mut kept = 0;
+        let want = if o.thorough { 3000 } else { 300 };
+        while kept < want {
+            let mut m = [[0.0; 3]; 3];
+            for r in &mut m {
+                for x in r.iter_mut() {
+                    *x = GRID[rng.below(7) as usize];
+                }
+            }
+            let det = m[0][0] * (m[1][1] * m[2][2] - m[1][2] * m[2][1]) - m[0][1] * (m[1][0] * m[2][2] - m[1][2] * m[2][0]) + m[0][2] * (m[1][0] * m[2][1] - m[1][1] * m[2][0]);
+            if det.abs() >= 0.5 {
+                v.push(m);
+                kept += 1;
+            }
+        }
+    }
     // near rank-deficient with |det| slightly above / below 0.5: scale a random matrix to a chosen determinant
     let n = if o.thorough { 20000 } else { 1500 };
     for i in 0..n {
